@@ -74,21 +74,50 @@ func runC13(c *Ctx) {
 						continue
 					}
 				}
-				c.Check(ok, "pow-writers", name+":"+f, c.P.Pos(st.Pos()), ifElse(ok, "allowed writer: "+allowed[name], name+" writes State."+f+": proof-of-work state must advance only through ApplyHeader, otherwise applying headers and applying full blocks diverge"))
+				why := "allowed writer: " + allowed[name]
+				if !ok || name == "consensus.ApplyHeader" {
+					// the property: header-only and full-block application advance the proof-of-work state identically. A
+					// writer is fine exactly if BOTH ways execute it on every normal path (ApplyHeader itself, or a common
+					// core both call).
+					ah, ab := c.P.Func("consensus.ApplyHeader"), c.P.Func(CAB)
+					okH, okB := reachesOnEveryPath(c.P, ah, fn, 0), reachesOnEveryPath(c.P, ab, fn, 0)
+					ok = okH && okB
+					why = "executed on every normal path of both ApplyHeader and ApplyBlock"
+					if !ok {
+						c.Fail("pow-writers", name+":"+f, c.P.Pos(st.Pos()), name+" writes State."+f+" but is "+ifElse(okH, "", "not ")+"executed on every path of ApplyHeader and "+ifElse(okB, "", "not ")+"on every path of ApplyBlock: proof-of-work state must advance through code common to both, otherwise applying headers and applying full blocks diverge")
+						continue
+					}
+				}
+				c.Check(ok, "pow-writers", name+":"+f, c.P.Pos(st.Pos()), why)
 			}
 		}
 	}
-	c.Check(writers["consensus.ApplyHeader"], "pow-writers", "ApplyHeader-writes", "", "ApplyHeader is a writer of the proof-of-work fields")
+	nw := 0
+	for w := range writers {
+		if _, exempt := allowed[w]; !exempt || w == "consensus.ApplyHeader" {
+			nw++
+		}
+	}
+	c.Check(nw >= 1, "pow-writers", "ApplyHeader-writes", "", fmt.Sprintf("%d function(s) advance the proof-of-work fields, all on the path common to ApplyHeader and ApplyBlock", nw))
 	// ApplyBlock returns ApplyHeader(...)
 	if fn := c.P.Func(CAB); fn != nil {
 		as := ge.ReturnAtoms(fn, 0)
 		ok := len(as) == 1 && mustRe(pat("call consensus.ApplyHeader({consensus.State}, call (types.Block).Header({types.Block}), {time.Time})")).MatchString(as[0])
+		if !ok && len(as) == 1 {
+			// or the result of the common core that ApplyHeader returns as well (a writer of the proof-of-work fields)
+			if m := mustRe(`^call (consensus\.\w+)\(\{consensus\.State\}, `).FindStringSubmatch(as[0]); m != nil && writers[m[1]] {
+				if ah := c.P.Func("consensus.ApplyHeader"); ah != nil {
+					hs := ge.ReturnAtoms(ah, 0)
+					ok = len(hs) == 1 && strings.HasPrefix(hs[0], "call "+m[1]+"({consensus.State}, ")
+				}
+			}
+		}
 		c.Check(ok, "headers-equal-blocks", "ApplyBlock-returns-ApplyHeader", c.P.Pos(fn.Pos()), ifElse(ok, "consensus.ApplyBlock returns ApplyHeader(s, b.Header(), targetTimestamp)", "consensus.ApplyBlock returns "+joinShort(as)+": header-only and full-block application can diverge"))
 		// ApplyHeader must come after the non-PoW updates: no store to a State field after the call on the returned value
 		cs := ge.Calls(fn, nil, nil, nil, 0, map[*ssa.Function]int{})
 		var callBlock *ssa.BasicBlock
 		for _, cf := range cs {
-			if cf.Callee != nil && FuncName(cf.Callee) == "consensus.ApplyHeader" && len(cf.Chain) == 1 {
+			if cf.Callee != nil && (FuncName(cf.Callee) == "consensus.ApplyHeader" || writers[FuncName(cf.Callee)]) && len(cf.Chain) == 1 {
 				for _, b := range fn.Blocks {
 					for _, in := range b.Instrs {
 						if in.Pos() == cf.Pos {
@@ -212,10 +241,23 @@ func c13Dispatch(c *Ctx, ge *GuardEngine) {
 		return
 	}
 	var disp *ssa.Function
-	for _, st := range fieldStores(ah, "Difficulty") {
-		if ex, ok := st.Val.(*ssa.Extract); ok {
-			if call, ok := ex.Tuple.(*ssa.Call); ok {
-				disp = call.Call.StaticCallee()
+	// ApplyHeader itself, or the common core it calls (the function that stores Difficulty)
+	cands := []*ssa.Function{ah}
+	for _, b := range ah.Blocks {
+		for _, in := range b.Instrs {
+			if call, ok := in.(*ssa.Call); ok {
+				if g := call.Call.StaticCallee(); g != nil && c.P.InModule(g) && g.Pkg == ah.Pkg {
+					cands = append(cands, g)
+				}
+			}
+		}
+	}
+	for _, cf := range cands {
+		for _, st := range fieldStores(cf, "Difficulty") {
+			if ex, ok := st.Val.(*ssa.Extract); ok {
+				if call, ok := ex.Tuple.(*ssa.Call); ok && disp == nil {
+					disp = call.Call.StaticCallee()
+				}
 			}
 		}
 	}
@@ -268,4 +310,31 @@ func c13Dispatch(c *Ctx, ge *GuardEngine) {
 		}
 	}
 	c.Min("clamp-shape", 4)
+}
+
+// reachesOnEveryPath: every normal path of from executes target (from == target, or a call on every path to a
+// function that does).
+func reachesOnEveryPath(p *Program, from, target *ssa.Function, depth int) bool {
+	if from == nil || target == nil || depth > 3 {
+		return false
+	}
+	if from == target {
+		return true
+	}
+	for _, b := range from.Blocks {
+		for _, in := range b.Instrs {
+			call, ok := in.(*ssa.Call)
+			if !ok {
+				continue
+			}
+			g := call.Call.StaticCallee()
+			if g == nil || !p.InModule(g) {
+				continue
+			}
+			if (g == target || reachesOnEveryPath(p, g, target, depth+1)) && onEveryNormalPath(from, b) {
+				return true
+			}
+		}
+	}
+	return false
 }
